@@ -409,3 +409,10 @@ Fixpoint run (st : scope * cst) (ops : list op) : list obs :=
   | [] => []
   | o :: r => let '(b, st') := step st o in b :: run st' r
   end.
+
+(* the object graph (structure + memoisation fields) after a history *)
+Fixpoint exec (st : scope * cst) (ops : list op) : scope * cst :=
+  match ops with
+  | [] => st
+  | o :: r => exec (snd (step st o)) r
+  end.
